@@ -76,12 +76,6 @@ V('c17-twin-keyword', 'C17', 'hl7apy/parser.py',
   "    segment.children = parse_fields(text, segment_name, version, encoding_chars, validation_level,\n                                    segment.structure_by_name, segment.allow_infinite_children)",
   "    segment.children = parse_fields(text, segment_name, version=version, encoding_chars=encoding_chars,\n                                    validation_level=validation_level, references=segment.structure_by_name,\n                                    force_varies=segment.allow_infinite_children)",
   expect='clean')
-V('c17-fix-factory-fallback', 'C17', 'hl7apy/factories.py', "        return factories['ST'](value)",
-  "        return factories['ST'](value, validation_level=validation_level)", expect='fixed:factories.datatype_factory')
-V('c17-fix-add-subcomponent', 'C17', 'hl7apy/core.py',
-  "        if self.is_unknown() and is_base_datatype(self.datatype):",
-  "        if self.is_unknown() and is_base_datatype(self.datatype, self.version):",
-  expect='fixed:core.Component.add_subcomponent')
 
 # ---------------------------------------------------------------- C18
 V('c18-parse-segments-drops-ref', 'C18', 'hl7apy/parser.py',
@@ -105,22 +99,12 @@ V('c18-group-creation-drops-ref', 'C18', 'hl7apy/parser.py',
 V('c18-message-drops-profile', 'C18', 'hl7apy/parser.py',
   "        m = Message(name=message_structure, reference=reference, version=version,\n                    validation_level=validation_level, encoding_chars=encoding_chars)",
   "        m = Message(name=message_structure, version=version,\n                    validation_level=validation_level, encoding_chars=encoding_chars)", rule='C18-F')
-V('c18-validate-ignores-reference', 'C18', 'hl7apy/core.py',
-  "        return Validator.validate(self, reference=self.reference, report_file=report_file, return_errors=return_errors)",
-  "        return Validator.validate(self, report_file=report_file, return_errors=return_errors)", rule='C18-V')
 V('c18-force-validation-standard', 'C18', 'hl7apy/parser.py',
   "            Validator.validate(m, message_profile[message_structure], report_file=report_file)",
   "            Validator.validate(m, report_file=report_file)", rule='C18-V')
 V('c18-validator-recursion-standard', 'C18', 'hl7apy/validation.py',
   "                            _is_valid(c, child_ref[1], errs, warns)", "                            _is_valid(c, None, errs, warns)",
   rule='C18-V')
-V('c18-keyerror-unmapped', 'C18', 'hl7apy/parser.py',
-  "    try:\n        reference = message_profile[message_structure] if message_profile else None\n    except KeyError:\n        raise MessageProfileNotFound()",
-  "    reference = message_profile.get(message_structure) if message_profile else None", rule='C18-S')
-V('c18-fix-legacy', 'C18', 'hl7apy/parser.py',
-  "        reference = message_profile[message_structure] if message_profile else None\n    except KeyError:",
-  "        reference = message_profile[message_structure] if message_profile else None\n        if reference is not None and reference[0] == 'mp':\n            raise LegacyMessageProfile()\n    except KeyError:",
-  expect='fixed:C18-S|parser.parse_message|legacy')
 V('c18-fix-find-groups', 'C18', 'hl7apy/parser.py',
   "                    segment = parse_segment(s.strip(), version, encoding_chars, validation_level)\n                    segments.append(segment)",
   "                    segment = parse_segment(s.strip(), version, encoding_chars, validation_level,\n                                            _flat_reference(references, segment_name))\n                    segments.append(segment)",
@@ -190,10 +174,6 @@ V('c09-set-always-appends', 'C09', 'hl7apy/core.py',
   "        if child_to_remove is not None:\n            self.remove(child_to_remove)\n        self.append(child)", rule='C09-S')
 V('c09-finder-wrong-index', 'C09', 'hl7apy/core.py', "                return self.indexes[n][i]", "                return self.indexes[n][-1]",
   rule='C09-X')
-V('c09-fix-setitem', 'C09', 'hl7apy/core.py',
-  "        child_name = self.list[index].name\n        self.set(child_name, value, index)",
-  "        old = self.list[index]\n        self.set(old.name, value, self.indexes[old.name].index(old))",
-  expect='fixed:C09-K')
 
 # ---------------------------------------------------------------- C11
 V('c11-proxy-read-attaches', 'C11', 'hl7apy/core.py',
@@ -309,10 +289,6 @@ V('c03-encoder-drops-unnamed', 'C03', 'hl7apy/core.py',
   "            for i in xrange(self._last_allowed_child_index + 1, self._last_child_index + 1):\n                children.append(self.children.indexes.get('{}_{}'.format(self.name, i), None))\n        children.extend([c for c in self.children.get_children() if c[0].name in (None, 'ST')])",
   "            for i in xrange(self._last_allowed_child_index + 1, self._last_child_index + 1):\n                children.append(self.children.indexes.get('{}_{}'.format(self.name, i), None))",
   rule='C03-U')
-V('c03-fix-fallthrough', 'C03', 'hl7apy/parser.py',
-  "                        if current_parent is None:\n                            segments.append(segment)\n                        else:\n                            current_parent.add(segment)\n                        break\n    return segments",
-  "                        if current_parent is None:\n                            segments.append(segment)\n                        else:\n                            current_parent.add(segment)\n                        break\n            else:\n                segments.append(parse_segment(s.strip(), version, encoding_chars, validation_level))\n    return segments",
-  expect='fixed:C03-P|parser.parse_segments')
 V('c03-twin-enumerate-start', 'C03', 'hl7apy/parser.py',
   "    for index, subcomponent in enumerate(text.split(subcomp_sep)):",
   "    pieces = text.split(subcomp_sep)\n    for index, subcomponent in enumerate(pieces):", expect='clean')
@@ -417,10 +393,6 @@ V('c04-table-negative-min', 'C04', 'hl7apy/v2_4/segments.py', "('ACC_1', FIELDS[
   "('ACC_1', FIELDS['ACC_1'], (2, 1), 'FIE')", rule='C04-C')
 
 # ---------------------------------------------------------------- C15
-V('c15-raise-keyerror', 'C15', 'hl7apy/parser.py',
-  "    try:\n        reference = message_profile[message_structure] if message_profile else None\n    except KeyError:\n        raise MessageProfileNotFound()",
-  "    try:\n        reference = message_profile[message_structure] if message_profile else None\n    except KeyError:\n        raise KeyError(message_structure)",
-  rule='C15-T')
 V('c15-raise-typeerror-in-encoder', 'C15', 'hl7apy/core.py',
   "        if encoding_chars is None:\n            encoding_chars = self.encoding_chars\n\n        child_class = list(self.child_classes.values())[0]",
   "        if encoding_chars is None:\n            encoding_chars = self.encoding_chars\n        if not isinstance(encoding_chars, dict):\n            raise TypeError('encoding_chars must be a dict')\n\n        child_class = list(self.child_classes.values())[0]",
@@ -438,13 +410,6 @@ V('c15-to-er7-reads-reference', 'C15', 'hl7apy/core.py',
 V('c15-router-no-mapping', 'C15', 'hl7apy/mllp.py',
   "            try:\n                msg_type = get_message_type(msg)\n            except ParserError:\n                raise InvalidHL7Message\n",
   "            msg_type = get_message_type(msg)\n", rule='C15-M')
-V('c15-fix-fields11', 'C15', 'hl7apy/parser.py',
-  "            elif len(seps) == N_SEPS_27 and fields[11] >= '2.7':",
-  "            elif len(seps) == N_SEPS_27 and len(fields) > 11 and fields[11] >= '2.7':", expect='fixed:C15-I|parser._split_msh')
-V('c15-fix-validate-reference', 'C15', 'hl7apy/core.py',
-  "        return Validator.validate(self, reference=self.reference, report_file=report_file, return_errors=return_errors)",
-  "        return Validator.validate(self, reference=getattr(self, 'reference', None), report_file=report_file,\n                                  return_errors=return_errors)",
-  expect='fixed:C15-A|core.Element.validate')
 
 # ---------------------------------------------------------------- C16
 V('c16-to-mllp-order', 'C16', 'hl7apy/core.py', 'return "{0}{1}{2}{3}{2}".format(MLLP_ENCODING_CHARS.SB,',
@@ -515,8 +480,6 @@ V('c07-segment-private-copy', 'C07', 'hl7apy/core.py',
   "    def _handle_empty_children(self, encoding_chars=None):\n        return ''\n\n\nclass Group(Element):",
   "    def _handle_empty_children(self, encoding_chars=None):\n        return ''\n\n    @property\n    def encoding_chars(self):\n        return get_default_encoding_chars(self.version)\n\n\nclass Group(Element):",
   rule='C07-I')
-V('c07-fix-duplicates', 'C07', 'hl7apy/__init__.py', "    values = [v for k, v in encoding_chars.items() if k in required]",
-  "    values = [v for k, v in encoding_chars.items() if k in required or k == 'TRUNCATION']", expect='fixed:C07-R|duplicates')
 
 # ---------------------------------------------------------------- C06
 V('c06-guard-loses-R', 'C06', 'hl7apy/base_datatypes.py', "r'(?<!%s[HNFSTRE])%s(?![HNFSTRE]%s)'", "r'(?<!%s[HNFSTE])%s(?![HNFSTE]%s)'")
@@ -617,4 +580,33 @@ V('c02-table-tag-wrong', 'C02', 'hl7apy/v2_4/segments.py', "('ACC_2', FIELDS['AC
 V('c02-table-wrong-struct', 'C02', 'hl7apy/v2_4/fields.py', "'ACC_2': ('sequence', DATATYPES_STRUCTS['CE'], 'CE',", "'ACC_2': ('sequence', DATATYPES_STRUCTS['CX'], 'CE',", rule='T5')
 V('c02-table-last-field-dropped', 'C02', 'hl7apy/v2_5/segments.py', "             ('ACC_11', FIELDS['ACC_11'], (0, 1), 'FIE'),)),", "             )),", rule='T7')
 V('c02-twin-enumerate-one', 'C02', 'hl7apy/parser.py', "    for index, component in enumerate(text.split(component_sep)):", "    for index, component in enumerate(text.split(component_sep), 0):", expect='clean')
-V('c02-fix-oro', 'C02', 'hl7apy/v2_1/segments.py', "    'ORO': (\n            (('ORO_1'", "    'ORO': ('sequence',\n            (('ORO_1'", expect='fixed:T1|v2_1.SEGMENTS[ORO]')
+
+
+# ---------------------------------------------------------------- regressions of repaired defects (fix: commits in /repo)
+# each variant reverts one repair: the check must report the violation again (fixed entries suppress nothing)
+V('reg-c17-add-subcomponent', 'C17', 'hl7apy/core.py', "        if self.is_unknown() and is_base_datatype(self.datatype, self.version):",
+  "        if self.is_unknown() and is_base_datatype(self.datatype):", rule='C17-F')
+V('reg-c17-factory-fallback', 'C17', 'hl7apy/factories.py', "        return factories['ST'](value, validation_level=validation_level)",
+  "        return factories['ST'](value)", rule='C17-F')
+V('reg-c13-factory-fallback', 'C13', 'hl7apy/factories.py', "        return factories['ST'](value, validation_level=validation_level)",
+  "        return factories['ST'](value)", rule='C13-L')
+V('reg-c18-legacy', 'C18', 'hl7apy/parser.py', "        if reference is not None and reference[0] == 'mp':\n            raise LegacyMessageProfile()\n", "", rule='C18-S')
+V('reg-c09-setitem', 'C09', 'hl7apy/core.py', "        child = self.list[index]\n        self.set(child.name, value, self.indexes[child.name].index(child))",
+  "        child_name = self.list[index].name\n        self.set(child_name, value, index)", rule='C09-K')
+V('reg-c03-fallthrough', 'C03', 'hl7apy/parser.py',
+  "            else:\n                # no level of the structure has a place for this segment: keep it at the message level\n                segments.append(parse_segment(s.strip(), version, encoding_chars, validation_level))\n",
+  "", rule='C03-P')
+V('reg-c15-fields11', 'C15', 'hl7apy/parser.py', "            elif len(seps) == N_SEPS_27 and len(fields) > 11 and fields[11] >= '2.7':",
+  "            elif len(seps) == N_SEPS_27 and fields[11] >= '2.7':", rule='C15-I')
+V('reg-c15-validate-reference', 'C15', 'hl7apy/core.py', "reference=getattr(self, 'reference', None), report_file=report_file,", "reference=self.reference, report_file=report_file,", rule='C15-A')
+V('reg-c07-duplicates', 'C07', 'hl7apy/__init__.py', "    values = [v for k, v in encoding_chars.items() if k in required or k == 'TRUNCATION']",
+  "    values = [v for k, v in encoding_chars.items() if k in required]", rule='C07-R')
+V('reg-c02-oro', 'C02', 'hl7apy/v2_1/segments.py', "    'ORO': ('sequence',\n            (('ORO_1'", "    'ORO': (\n            (('ORO_1'", rule='T1')
+V('reg-c05-raw-level', 'C05', 'hl7apy/core.py', "        if self.is_unknown() and Validator.is_strict(self.validation_level) and \\\n                not is_base_datatype(self.datatype, self.version) and self.datatype != 'varies':",
+  "        if self.is_unknown() and Validator.is_strict(validation_level) and \\\n                not is_base_datatype(self.datatype, self.version) and self.datatype != 'varies':", rule='C05-V')
+V('reg-c17-raw-level-field', 'C17', 'hl7apy/core.py', "        SupportComplexDataType.__init__(self)\n\n        if validation_level is None:\n            validation_level = get_default_validation_level()\n\n        if name is None",
+  "        SupportComplexDataType.__init__(self)\n\n        if name is None", rule='C17-R')
+# stale texts refreshed after the repairs
+V('c18-validate-ignores-reference', 'C18', 'hl7apy/core.py', "reference=getattr(self, 'reference', None), report_file=report_file,", "report_file=report_file,", rule='C18-V')
+V('c18-keyerror-unmapped', 'C18', 'hl7apy/parser.py', "    except KeyError:\n        raise MessageProfileNotFound()\n\n    try:\n        m = Message(", "    except KeyError:\n        reference = None\n\n    try:\n        m = Message(", rule='C18-S')
+V('c15-raise-keyerror', 'C15', 'hl7apy/parser.py', "    except KeyError:\n        raise MessageProfileNotFound()\n\n    try:\n        m = Message(", "    except KeyError:\n        raise KeyError(message_structure)\n\n    try:\n        m = Message(", rule='C15-T')
